@@ -14,9 +14,9 @@ OPTIONS = {"go": ["", "go:package_prefix=verifharness/x/", "go:async,slim", "go:
            "json": [""], "html": ["", "html:standalone"]}
 
 
-def idl_cfg(tricky, emit_at, breaks, hard="none"):
-    return ("SPECIFICATION Spec\nCONSTANTS MaxDecls = 2 Tricky = %s EmitAt = %d WithBreaks = %s Hard = \"%s\"\nINVARIANTS AlwaysValid Emit\nCHECK_DEADLOCK FALSE\n"
-            % (tricky, emit_at, breaks, hard))
+def idl_cfg(tricky, emit_at, breaks, hard="none", focus="all"):
+    return ("SPECIFICATION Spec\nCONSTANTS MaxDecls = 2 Tricky = %s EmitAt = %d WithBreaks = %s Focus = \"%s\" Hard = \"%s\"\nINVARIANTS AlwaysValid Emit\nCHECK_DEADLOCK FALSE\n"
+            % (tricky, emit_at, breaks, focus, hard))
 
 
 def run_frugal(frugal, args, cwd, timeout=10):
@@ -149,6 +149,22 @@ def run(ctx):
             for s in r.printed:
                 if s.startswith("PROG "):
                     progs.append(s[5:])
+    # every use of a typedef chain over an enum / a struct: all programs one step away from IDL!EnumRefsBase (focus "enumrefs",
+    # exhaustive), plus a few random walks further out
+    r = ctx.tlc_must_hold("IDL", "i.cfg", cfg_text=idl_cfg("FALSE", 1, "FALSE", focus="enumrefs").replace("CHECK_DEADLOCK", "CONSTRAINT Bounded\nCHECK_DEADLOCK"),
+                          workers=NCPU, timeout=1200)
+    focusprogs = list(dict.fromkeys(s[5:] for s in r.printed if s.startswith("PROG ")))
+    ctx.seed = old * 29
+    r = ctx.tlc("IDL", "i.cfg", cfg_text=idl_cfg("FALSE", 4, "FALSE", focus="enumrefs"), workers=1, simulate=6 if thorough else 2, depth=4, timeout=1200)
+    if not r.ok:
+        ctx.seed = old
+        raise MachineryError("IDL simulation (enumrefs) failed: " + r.out[-1500:])
+    fp = list(dict.fromkeys(s[5:] for s in r.printed if s.startswith("PROG ")))
+    rng0 = random.Random(ctx.seed)
+    rng0.shuffle(fp)
+    focusprogs += fp[:(400 if thorough else 60)]
+    focusprogs = list(dict.fromkeys(focusprogs))
+    ctx.extra["focus_enumrefs_programs"] = len(focusprogs)
     # the families of constructs the generators are known to mishandle, generated apart from everything else
     hardprogs = {}
     for hard in ("keywords", "container-keys"):
@@ -173,6 +189,8 @@ def run(ctx):
     valid = valid[:nvalid * 3]
     rng.shuffle(valid)
     valid = valid[:nvalid]
+    nmain = len(valid)
+    valid += [q for q in focusprogs if q not in set(valid)]
     bykind = {}
     for p in broken:
         bykind.setdefault(json.loads(p)["broken"], []).append(p)
@@ -206,8 +224,10 @@ def run(ctx):
         if lab.startswith("hard:"):
             lab = "none"    # a valid program; its family is in feat[d]
         tgts = TARGETS if lab == "none" else ["go", "java", "py", "json"]
+        if lab == "none" and nmain <= i < len(valid):
+            tgts = ["go", "java", "py", "dart"]    # the focus programs: default options of four targets
         for t in tgts:
-            opts = OPTIONS[t] if (lab == "none" and i % 4 == 0) else OPTIONS[t][:1]
+            opts = OPTIONS[t] if (lab == "none" and i % 4 == 0 and i < nmain) else OPTIONS[t][:1]
             for o in opts:
                 gen = o or t
                 jobs.append((d, lab, os.path.join(rdir, d), "main.frugal", gen, "ok" if lab == "none" else "diagnostic",
